@@ -33,7 +33,7 @@ mod verif_c10_registers {
         kani::cover!(true, "reach_end");
     }
 
-    //@ob id=C10.reg40.converse flags=noassert props=C10 tier=quick kind=harness fns=bds/bds_4_0.rs:is_bds_4_0 draw=frame28
+    //@ob id=C10.reg40.converse flags=noassert props=C10,C01 tier=quick kind=harness fns=bds/bds_4_0.rs:is_bds_4_0 draw=frame28
     //@region all 112-bit frames whose MB field is a plausible BDS 4,0 (status bits set, reserved zero, every value field non-zero, pressure <= 1210 mb): decoded as BDS 4,0 with the MCP altitude shown
     #[kani::proof]
     #[kani::unwind(34)]
@@ -75,7 +75,7 @@ mod verif_c10_registers {
         kani::cover!(true, "reach_end");
     }
 
-    //@ob id=C10.reg50.converse flags=noassert props=C10 tier=quick kind=harness fns=bds/bds_5_0.rs:is_bds_5_0 draw=frame28
+    //@ob id=C10.reg50.converse flags=noassert props=C10,C01 tier=quick kind=harness fns=bds/bds_5_0.rs:is_bds_5_0 draw=frame28
     //@region all 112-bit frames whose MB field is a plausible BDS 5,0 (status bits set, every field non-zero, |roll|<=50, GS<=600, TAS<=500, |GS-TAS|<200) - left AND right turns: decoded as BDS 5,0 with all five values shown
     #[kani::proof]
     #[kani::unwind(34)]
@@ -119,7 +119,7 @@ mod verif_c10_registers {
         kani::cover!(true, "reach_end");
     }
 
-    //@ob id=C10.reg60.converse flags=noassert props=C10 tier=quick kind=harness fns=bds/bds_6_0.rs:is_bds_6_0 draw=frame28
+    //@ob id=C10.reg60.converse flags=noassert props=C10,C01 tier=quick kind=harness fns=bds/bds_6_0.rs:is_bds_6_0 draw=frame28
     //@region all 112-bit frames whose MB field is a plausible BDS 6,0 (status bits set, every field non-zero, Mach<=1, |rates|<=6000) - climbs AND descents: decoded as BDS 6,0
     #[kani::proof]
     #[kani::unwind(34)]
